@@ -177,7 +177,7 @@ def check_doc(nodes, src, case, res):
 
 
 def plan(ctx):
-    shards = [('doc', PROFILES[i % len(PROFILES)], ctx.pick(300, 8000), i) for i in range(16)]
+    shards = [('doc', PROFILES[i % len(PROFILES)], ctx.pick(300, 4000), i) for i in range(16)]
     return [('shard_docs', shards)]
 
 
